@@ -1248,11 +1248,68 @@ def history(llb, d, seed, jobs, db, keep_going, with_ninja, want_clean):
         null_rebuild("after removing the extra file from the command line")
         return not findings
 
+    def cycle_op():
+        """A manifest edit that declares a dependency cycle (a statement lists its own output, or an earlier statement lists
+        the output of one of its dependents, as explicit / implicit / order-only input): the build must fail and run no
+        command of the cycle; after the edit is reverted the build converges."""
+        reach = [c for c in w.reachable() if c.literal is None]
+        # (a generator statement is not re-evaluated for a changed definition - known finding rewire-generator-input-stale -
+        # so the edit is made to a non-generator statement)
+        firsts = [c for c in reach if c.kind != "generator"]
+        if not firsts:
+            return None
+        ci = rng.choice(firsts)
+        down = w.dependents({ci.name})
+        cands = [c for c in reach if c.name in down]
+        cj = rng.choice(cands) if cands and rng.random() < 0.7 else ci
+        cls = rng.choice(["exp", "imp", "oo"])
+        back = cj.outs[0]
+        if back in ci.exp + ci.imp + ci.oo:
+            return None
+        members = set([ci.name]) | (down & (set(c.name for c in w.cmds if cj.name in w.dependents({c.name})) | set([cj.name])))
+        stats["nontrivial"].add(("cycle %s len%s" % (cls, "1" if cj is ci else ">1"), jobs, db, keep_going))
+        getattr(ci, cls).append(back)
+        record("op", op="declare a dependency cycle", cmd=ci.name, node=back, cls=cls, members=sorted(members))
+        for t in twins:
+            t.w = w
+            t.write_manifest()
+        rc, ran, txt, nran = build_all("declared cycle")
+        nrc = steps[-1].get("ninja_rc")
+        if rc == 0 or any(r in members for r in ran):
+            findings.append(("cycle-not-rejected", "`build %s` was edited to list %s (an output of %s) as %s input, a dependency cycle through %s: the build exited with "
+                             "status %d and ran %s" % (" ".join(ci.outs), back, "itself" if cj is ci else "its dependent " + cj.name,
+                                                       {"exp": "an explicit", "imp": "an implicit", "oo": "an order-only"}[cls], sorted(members), rc, ran),
+                             rp(dict(ran=ran, text=txt[-800:], members=sorted(members)))))
+            return False
+        if "cycle" not in txt:
+            notes.append(dict(note="a declared dependency cycle failed the build without the word 'cycle' in the output", seed=seed))
+        getattr(ci, cls).remove(back)
+        record("op", op="revert the cycle", cmd=ci.name)
+        for t in twins:
+            t.w = w
+            t.write_manifest()
+        rc, ran, txt, nran = build_all("cycle reverted")
+        if rc != 0:
+            findings.append(("build-failed", "the build after reverting a declared cycle failed", rp(dict(ran=ran, text=txt[-1200:]))))
+            return False
+        if not check_success_state("cycle reverted", ran):
+            return False
+        null_rebuild("after reverting the cycle")
+        return not findings
+
     nops = rng.randint(5, 9)
     done = 0
     guard = 0
     while done < nops and guard < 60 and not findings:
         guard += 1
+        if rng.random() < 0.07:
+            r = cycle_op()
+            if r is None:
+                continue
+            done += 1
+            if r is False:
+                break
+            continue
         if rng.random() < 0.10:
             r = gain_lose_output()
             if r is None:
@@ -1648,6 +1705,43 @@ def scripted(llb, base):
         out.append(("added-output-not-built-deleted-output", "`build a: r x` was edited to `build a b: r x` (command text unchanged) and a, b were deleted: the build of c "
                     "(which reads a) ran %s with exit status %d and left a missing" % (log[1][1], log[1][0]),
                     rpl(d, log, history=["build", "edit to `build a b: r x`, delete a and b", "build"])))
+    # -- dependency cycles declared at the Ninja level (seed C07-8): a non-phony statement listing its own output as explicit /
+    #    implicit / order-only input, 2- and 3-statement cycles, in default and --strict mode: the build fails and runs no command
+    #    of the cycle (ninja 1.11.1: "dependency cycle").  The phony self-reference is tolerated in default mode (CMake writes
+    #    it; ninja warns and ignores it) and rejected under --strict ("no bug compatibility").
+    R = "rule G\n  command = echo $out >> runlog; cat in > $out\n"
+    CYC = {
+        "self-exp": (R + "build out: G in out\nbuild all: phony out\ndefault all\n", ["out"]),
+        "self-imp": (R + "build out: G in | out\nbuild all: phony out\ndefault all\n", ["out"]),
+        "self-oo": (R + "build out: G in || out\nbuild all: phony out\ndefault all\n", ["out"]),
+        "self-2outs": (R + "build out out2: G in | out2\nbuild all: phony out\ndefault all\n", ["out"]),
+        "two": (R + "build a: G in b\nbuild b: G in a\ndefault a\n", ["a", "b"]),
+        "two-imp-oo": (R + "build a: G in | b\nbuild b: G in || a\ndefault a\n", ["a", "b"]),
+        "three": (R + "build a: G in c\nbuild b: G in a\nbuild c: G in b\nbuild free: G in\ndefault a free\n", ["a", "b", "c"]),
+        "phony-two": (R + "build out: G in\nbuild p: phony q\nbuild q: phony p out\ndefault p\n", []),
+    }
+    for name, (M, members) in CYC.items():
+        for strict in (0, 1):
+            d = sandbox("cycle-%s-%d" % (name, strict), M, {"in": ("i\n", 10)})
+            log = [build(llb, d, ["-j1"] + (["--strict"] if strict else []))]
+            rc, ran, txt = log[0]
+            nj = vlib.sh(["ninja", "-C", d, "-n"], timeout=60)
+            if rc == 0 or any(m in ran for m in members):
+                out.append(("cycle-not-rejected", "declared dependency cycle (%s%s): exit status %d, ran %s; the build must fail and run no command of the cycle %s "
+                            "(ninja 1.11.1: exit status %d%s)" % (name, ", --strict" if strict else "", rc, ran, members, nj[0], ", 'dependency cycle'" if "cycle" in nj[1] + nj[2] else ""),
+                            rpl(d, log, history=["build%s" % (" --strict" if strict else "")])))
+    M = R + "build out: G in\nbuild all: phony out all\ndefault all\n"
+    for variant, MM in (("exp", M), ("oo", M.replace("phony out all", "phony out || all"))):
+        for strict in (0, 1):
+            d = sandbox("cycle-phony-self-%s-%d" % (variant, strict), MM, {"in": ("i\n", 10)})
+            log = [build(llb, d, ["-j1"] + (["--strict"] if strict else []))]
+            rc, ran, txt = log[0]
+            if not strict and (rc != 0 or ran != ["out"]):
+                out.append(("phony-self-reference-rejected", "default mode: a phony statement listing itself must be tolerated (CMake writes it, ninja ignores it with a warning): "
+                            "exit status %d, ran %s" % (rc, ran), rpl(d, log)))
+            if strict and rc == 0:
+                out.append(("cycle-not-rejected", "--strict: a phony statement listing itself (`build all: phony out %sall`) was accepted with exit status 0; strict mode has no "
+                            "bug compatibility and must report the cycle" % ("|| " if variant == "oo" else ""), rpl(d, log)))
     # -- restat: an upstream command that leaves its output untouched does not re-run its dependents; without restat it does
     for restat in (1, 0):
         M = ("rule MK\n  command = echo $out >> runlog; if [ ! -f $out ]; then cp $in $out; fi\n%srule CP\n  command = echo $out >> runlog; cp $in $out\n"
